@@ -35,10 +35,10 @@ EXPLANATION = ("Lean theorems hold for every literal of the grammar (unbounded d
 THEOREMS = [
     "Cppcheck.C10.toBig_render", "Cppcheck.C10.toBigU_render", "Cppcheck.C10.toBig_rejects_overflow_partial",
     "Cppcheck.C10.toBig_rejects_overflow_counterexample", "Cppcheck.C10.toBig_bin_wraps",
-    "Cppcheck.C10.isInt_iff_grammar", "Cppcheck.C10.suffix_iff_spec", "Cppcheck.C10.iso_literal_accepted",
+    "Cppcheck.C10.isInt_iff_grammar", "Cppcheck.C10.suffix_iff_spec",
     "Cppcheck.C10.charlit_value_partial", "Cppcheck.C10.charlit_value_counterexample",
-    "Cppcheck.C10.truncate_eq_wrap", "Cppcheck.C10.minmax_eq_range_partial", "Cppcheck.C10.minmax_counterexample",
-    "Cppcheck.C10.const_unsigned_adjust",
+    "Cppcheck.C10.truncate_eq_wrap", "Cppcheck.C10.truncate_signed", "Cppcheck.C10.truncate_unsigned",
+    "Cppcheck.C10.minmax_eq_range_partial", "Cppcheck.C10.minmax_counterexample", "Cppcheck.C10.const_unsigned_adjust",
     "Cppcheck.C10.sizeof_table", "Cppcheck.C10.sizeOf_eq_source", "Cppcheck.C10.bitsOf_eq_source",
     "Cppcheck.C10.platforms_sane", "Cppcheck.C10.platform_ranges_defined",
 ]
@@ -567,8 +567,459 @@ def nontrivial_inproc(op, out):
     return True
 
 
+# ------------------------------------------------------------------------------------------------------------
+# structured literals: the SPEC side is evaluated by the Lean driver (`lit` / `clit` ops), the implementation by the harness
+# ------------------------------------------------------------------------------------------------------------
+def gen_struct_lit(rng):
+    base = rng.choice("ddxxob")
+    radix = {"d": 10, "x": 16, "o": 8, "b": 2}[base]
+    v = gen_magnitude(rng)
+    ds = render_digits(rng, radix, v, pad=(base != "d"))
+    if base == "d" and rng.random() < 0.05:
+        ds = "0" + ds                  # non-canonical decimal spelling (reads as octal): outside the theorem's hypothesis
+    suf = rng.choice(SUFFIX_OK) if rng.random() < 0.93 else rng.choice(SUFFIX_BAD)
+    sg = "-" if rng.random() < 0.85 else rng.choice("pm")
+    return "lit %s %s %d %s %s" % (sg, base, 1 if rng.random() < 0.3 else 0, lat1(ds), lat1(suf))
+
+
+def gen_struct_elem(rng, kind):
+    k = rng.random()
+    if k < 0.3:
+        return "p:" + lat1(rng.choice(PLAIN + list("0123456789abcdefABCDEFxX")))
+    if k < 0.45:
+        return "s:" + lat1(rng.choice(SIMPLE_ESC))
+    if k < 0.62:
+        n = rng.choice([1, 2, 3])
+        ds = "".join(rng.choice("01234567") for _ in range(n))
+        if kind in "n8" and n == 3 and rng.random() < 0.8:
+            ds = rng.choice("0123") + ds[1:]
+        return "o:" + lat1(ds)
+    if k < 0.85:
+        mx = {"n": 255, "8": 255, "16": 0xffff, "w": 0xffffffff}[kind]
+        v = rng.choice([0, 0, 1, 0x41, 0x7f, 0x80, 0xff, mx, mx + 1 if rng.random() < 0.1 else mx, rng.randrange(0, mx + 1)])
+        s = "%x" % v
+        if rng.random() < 0.3:
+            s = s.upper()
+        if rng.random() < 0.25:
+            s = "0" * rng.choice([1, 2, 7]) + s
+        return "x:" + lat1(s)
+    mx = {"n": 0x7f, "8": 0x7f, "16": 0xffff, "w": 0x10ffff}[kind]
+    cp = rng.choice([0x24, 0x40, 0x60, 0x7f, mx, rng.randrange(0, mx + 1), 0xd7ff, 0xe000, 0xd800 if rng.random() < 0.2 else 0xe9])
+    cp = min(cp, mx) if rng.random() < 0.95 else cp
+    if cp <= 0xffff and rng.random() < 0.7:
+        return "u:" + lat1("%04x" % cp)
+    return "U:" + lat1("%08x" % cp)
+
+
+def gen_struct_char(rng):
+    kind = rng.choice(["n", "n", "n", "n", "8", "16", "w"])
+    n = rng.choice([1, 1, 1, 2, 2, 3, 4, 5, 8]) if kind == "n" else 1
+    es = [gen_struct_elem(rng, kind) for _ in range(n)]
+    if kind == "n" and rng.random() < 0.06:
+        j = rng.randrange(len(es) + 1)
+        es[j:j] = ["x:" + lat1("0"), "p:" + lat1(rng.choice("xX")), "p:" + lat1(rng.choice("0123456789abcdefABCDEF"))]
+    return "clit %s %s" % (kind, " ".join(es))
+
+
+def parse_kv(line):
+    return dict(f.split("=", 1) for f in line.split(" ") if "=" in f)
+
+
+def wrap64(v):
+    v &= (1 << 64) - 1
+    return v - (1 << 64) if v >= (1 << 63) else v
+
+
+def classify_inproc(case):
+    """known-finding classes of P_impl failures on structured literals"""
+    if case["kind"] == "clit" and case["spec"].get("q") == "1":
+        return "charlit-hex0x-prefix"
+    return None
+
+
+def pimpl_struct(ctx, res, drv, exe, specs, tag):
+    """specs: list of `lit`/`clit` op lines.  Evaluates the property predicate on the IMPLEMENTATION: the value the real
+    converter returns for the spelling of a well-formed literal equals the value of the specification."""
+    rc, sout, err = core.run_lines(drv, [], specs)
+    if len(sout) != len(specs):
+        raise core.CheckBroken("driver produced %d lines for %d spec ops: %s" % (len(sout), len(specs), err[-300:]))
+    cases, ops = [], []
+    for sp, o in zip(specs, sout):
+        kv = parse_kv(o)
+        if "render" not in kv:
+            raise core.CheckBroken("spec op %r answered %r" % (sp, o))
+        kind = sp.split(" ", 1)[0]
+        cases.append(dict(kind=kind, op=sp, spec=kv))
+        ops.append(("big " if kind == "lit" else "chr ") + kv["render"])
+    rc, iout, err = core.run_lines(exe, [core.REPO], ops)
+    rc2, mout, err2 = core.run_lines(drv, [], ops)
+    core.correspond(ctx, res, "inprocess-structured-" + tag, ops, iout, mout, nontrivial=lambda op, out: True)
+    nviol = 0
+    for c, op, got in zip(cases, ops, iout):
+        kv = c["spec"]
+        if kv["wf"] != "1":
+            res.count("struct:%s:not-wf" % c["kind"])
+            continue
+        if c["kind"] == "lit":
+            if kv["canon"] != "1":
+                res.count("struct:lit:non-canonical")
+                continue
+            mag, val = int(kv["mag"]), int(kv["value"])
+            base = c["op"].split(" ")[2]
+            if mag < 2 ** 64 or base == "b":
+                want = "B ok:%d | U ok:%d" % (wrap64(val), val % 2 ** 64)
+                if mag >= 2 ** 64:
+                    res.count("struct:lit:binary-wider-than-64-bits(ill-formed, wraps)")
+                    continue
+            else:
+                want = "B err:out_of_range | U err:out_of_range"
+            res.count("struct:lit:%s:%s" % (base, "fits" if mag < 2 ** 64 else "overflow"))
+        else:
+            want = "ok:" + kv["value"]
+            res.count("struct:clit:%s" % c["op"].split(" ")[1])
+        if got != want:
+            key = classify_inproc(c)
+            nviol += 1
+            if nviol <= 40:
+                res.violation("literal value differs from the specification: %s spelled %r: implementation %s, specification %s" %
+                              (c["op"], core.unhx(kv["render"]).decode("latin-1"), got, want),
+                              dict(kind="struct", op=c["op"], render=kv["render"], implementation=got, specification=want,
+                                   replay_cmd="./check.py C10 --replay <this file>"), concrete=True, key=key)
+    return cases
+
+
+# ------------------------------------------------------------------------------------------------------------
+# C6: CLI tie — constant expressions per platform, reference evaluator of the C abstract machine
+# ------------------------------------------------------------------------------------------------------------
+class Plat:
+    def __init__(self, name, v):
+        self.name = name
+        self.size = dict(char=1, short=v["sizeof_short"], int=v["sizeof_int"], long=v["sizeof_long"], llong=v["sizeof_long_long"],
+                         wchar_t=v["sizeof_wchar_t"], float=v["sizeof_float"], double=v["sizeof_double"], ldouble=v["sizeof_long_double"],
+                         pointer=v["sizeof_pointer"], size_t=v["sizeof_size_t"])
+        self.cb = v["char_bit"]
+        self.char_unsigned = v["defaultSign"] == "u"
+
+    def bits(self, t):
+        return self.cb * self.size[t]
+
+
+RANK = ["int", "long", "llong"]
+
+
+def fits(P, ty, v):
+    t, uns = ty
+    b = P.bits(t)
+    return 0 <= v < (1 << b) if uns else -(1 << (b - 1)) <= v < (1 << (b - 1))
+
+
+def conv(P, ty, v):
+    t, uns = ty
+    b = P.bits(t)
+    v &= (1 << b) - 1
+    if not uns and v >= (1 << (b - 1)):
+        v -= 1 << b
+    return v
+
+
+def lit_type(P, decimal, mag, uns, minrank):
+    cands = []
+    for r in range(minrank, 3):
+        if uns:
+            cands.append((RANK[r], True))
+        elif decimal:
+            cands.append((RANK[r], False))
+        else:
+            cands += [(RANK[r], False), (RANK[r], True)]
+    for ty in cands:
+        if fits(P, ty, mag):
+            return ty
+    return None
+
+
+def uac(P, a, b):
+    (ta, ua), (tb, ub) = a, b
+    ra, rb = RANK.index(ta), RANK.index(tb)
+    if ua == ub:
+        return (RANK[max(ra, rb)], ua)
+    (tu, ru), (ts, rs) = ((ta, ra), (tb, rb)) if ua else ((tb, rb), (ta, ra))
+    if ru >= rs:
+        return (tu, True)
+    if P.bits(ts) > P.bits(tu):
+        return (ts, False)
+    return (ts, True)
+
+
+SUF_CLI = [("", False, 0), ("u", True, 0), ("U", True, 0), ("l", False, 1), ("L", False, 1), ("ul", True, 1), ("UL", True, 1), ("lu", True, 1),
+           ("ll", False, 2), ("LL", False, 2), ("ull", True, 2), ("ULL", True, 2), ("llu", True, 2), ("LLU", True, 2)]
+CAST_T = [("signed char", ("char", False)), ("unsigned char", ("char", True)), ("short", ("short", False)), ("unsigned short", ("short", True)),
+          ("int", ("int", False)), ("unsigned", ("int", True)), ("unsigned int", ("int", True)), ("long", ("long", False)),
+          ("unsigned long", ("long", True)), ("long long", ("llong", False)), ("unsigned long long", ("llong", True))]
+SIZEOF_T = [("char", "char"), ("signed char", "char"), ("unsigned char", "char"), ("short", "short"), ("unsigned short", "short"), ("int", "int"),
+            ("unsigned", "int"), ("long", "long"), ("unsigned long", "long"), ("long long", "llong"), ("unsigned long long", "llong"),
+            ("float", "float"), ("double", "double"), ("long double", "ldouble"), ("void *", "pointer"), ("char *", "pointer"), ("int *", "pointer")]
+
+
+def cli_lit(rng, P, cpp, small=False):
+    """(source text, type, value, description) of an integer literal that is well-formed on P"""
+    for _ in range(50):
+        base = rng.choice([10, 10, 16, 16, 8, 2])
+        if small:
+            mag = rng.choice([0, 1, 2, 3, 7, 255, 256, 65535, 65536, (1 << (P.bits("int") - 1)) - 1, 1 << (P.bits("int") - 1), (1 << P.bits("int")) - 1,
+                              (1 << P.bits("long")) - 1, rng.getrandbits(rng.choice([4, 8, 15, 16, 17, 31, 32, 33]))])
+        else:
+            mag = gen_magnitude(rng)
+        if mag >= 2 ** 63:
+            # a value cppcheck's bigint cannot hold is attached as no value; keep a few for the model tie only
+            if rng.random() < 0.8:
+                continue
+        suf, uns, minrank = rng.choice(SUF_CLI)
+        ty = lit_type(P, base == 10, mag, uns, minrank)
+        if ty is None:
+            continue
+        pfx = {10: "", 16: rng.choice(["0x", "0X"]), 8: "0", 2: rng.choice(["0b", "0B"])}[base]
+        ds = render_digits(rng, base, mag, pad=False)
+        if base == 10 and mag == 0:
+            pfx, ds = "", "0"
+        if base == 8 and mag == 0:
+            pfx, ds = "", "00"
+        if cpp and len(ds) > 3 and rng.random() < 0.25:
+            j = rng.randrange(1, len(ds))
+            ds = ds[:j] + "'" + ds[j:]           # C++14 digit separator, removed by the simplecpp lexer
+        return pfx + ds + suf, ty, mag, "lit"
+    return "1", ("int", False), 1, "lit"
+
+
+def cli_char(rng, P, cpp):
+    k = rng.random()
+    if k < 0.55:
+        # one narrow c-char
+        j = rng.random()
+        if j < 0.35:
+            c = rng.choice(PLAIN)
+            src, byte = c, ord(c)
+        elif j < 0.5:
+            e = rng.choice("abfnrtv'\"?\\")
+            src, byte = "\\" + e, {"a": 7, "b": 8, "f": 12, "n": 10, "r": 13, "t": 9, "v": 11, "'": 39, '"': 34, "?": 63, "\\": 92}[e]
+        elif j < 0.75:
+            byte = rng.choice([0, 1, 0x7f, 0x80, 0x81, 0xfe, 0xff, rng.randrange(256)])
+            src = "\\x%x" % byte
+        else:
+            byte = rng.choice([0, 7, 0o177, 0o200, 0o377, rng.randrange(256)])
+            src = "\\%o" % byte
+        val = byte if (P.char_unsigned or byte < 128) else byte - 256
+        return "'%s'" % src, ("int", False), val, "char1:%s" % ("high" if byte >= 128 else "low")
+    if k < 0.7:
+        # two-character constant (type int; gcc/clang value)
+        a, b = rng.choice(PLAIN), rng.choice(PLAIN)
+        return "'%s%s'" % (a, b), ("int", False), conv(P, ("int", False), ord(a) * 256 + ord(b)), "char2"
+    pfx = rng.choice(["L", "u", "U"] + (["u8"] if cpp else []))
+    c = rng.choice([x for x in PLAIN if x != " "])
+    if rng.random() < 0.4:
+        v = rng.choice([0x41, 0x7f, 0xe9 if pfx != "u8" else 0x41, 0x7fff if pfx != "u8" else 0x7f])
+        return "%s'\\x%x'" % (pfx, v), ("int", False), v, "charp:" + pfx
+    return "%s'%s'" % (pfx, c), ("int", False), ord(c), "charp:" + pfx
+
+
+def cli_expr(rng, P, cpp):
+    """one constant expression: dict(src, expect (int or None = undefined / ill-formed), kind, detail)"""
+    k = rng.random()
+    if k < 0.34:
+        src, ty, v, d = cli_lit(rng, P, cpp)
+        return dict(src=src, expect=v, kind="L", ty=ty)
+    if k < 0.5:
+        src, ty, v, d = cli_char(rng, P, cpp)
+        return dict(src=src, expect=v, kind="C", detail=d, ty=ty)
+    if k < 0.62:
+        tn, t = rng.choice(SIZEOF_T)
+        return dict(src="sizeof(%s)" % tn, expect=P.size[t], kind="S", ty=("long", True))
+    if k < 0.78:
+        tn, ty = rng.choice(CAST_T)
+        src, lty, v, d = cli_lit(rng, P, cpp, small=rng.random() < 0.5)
+        neg = rng.random() < 0.3
+        if neg:
+            if not fits(P, lty, -v) and not lty[1]:
+                neg = False
+        val = conv(P, lty, -v) if neg else v
+        return dict(src="(%s)%s%s" % (tn, "-" if neg else "", src), expect=conv(P, ty, val), kind="K", ty=ty)
+    op = rng.choice("+-*")
+    a_src, aty, av, _ = cli_lit(rng, P, cpp, small=True)
+    b_src, bty, bv, _ = cli_lit(rng, P, cpp, small=True)
+    rty = uac(P, aty, bty)
+    exact = av + bv if op == "+" else av - bv if op == "-" else av * bv
+    if rty[1]:
+        expect = conv(P, rty, exact)
+    else:
+        expect = exact if fits(P, rty, exact) else None     # signed overflow: undefined, nothing to compare
+    return dict(src="%s %s %s" % (a_src, op, b_src), expect=expect, kind="B", ty=rty, exact=exact, op=op, a=av, b=bv, aty=aty, bty=bty)
+
+
+def cli_program(exprs):
+    return "void f(void) {\n  long long x;\n" + "".join("  x = %s;\n" % e["src"] for e in exprs) + "}\n"
+
+
+VT_SIZE = {"char": "char", "short": "short", "int": "int", "long": "long", "long long": "llong", "wchar_t": "wchar_t"}
+
+
+def read_dump(path):
+    """line → (top RHS token dict, known point int values of it)"""
+    root = ET.parse(path).getroot()
+    out = {}
+    for d in root.iter("dump"):
+        toks = {}
+        for t in d.iter("token"):
+            toks[t.get("id")] = t.attrib
+        vals = {}
+        vf = d.find("valueflow")
+        if vf is not None:
+            for vs in vf.iter("values"):
+                vals[vs.get("id")] = [v.attrib for v in vs.iter("value")]
+        for t in toks.values():
+            if t.get("str") == "=" and t.get("isAssignmentOp") == "true" and t.get("astOperand2"):
+                rhs = toks.get(t["astOperand2"])
+                if rhs is None:
+                    continue
+                # values of unsigned-typed tokens are printed as biguint: bring them back to the bigint they are
+                known = [wrap64(int(v["intvalue"])) for v in vals.get(rhs.get("values"), []) if v.get("known") == "true" and "intvalue" in v and v.get("bound", "Point") == "Point"]
+                out[int(t["linenr"])] = (rhs, known)
+    return out
+
+
+def classify_cli(P, e, reported):
+    """known-finding classes of a reported constant that differs from the C abstract machine"""
+    if e["kind"] == "B" and e["ty"][1] and "exact" in e:
+        if wrap64(e["exact"]) == reported and not fits(P, e["ty"], e["exact"]):
+            return "fold-unsigned-no-wrap"            # F5: 64-bit arithmetic, result not reduced to the unsigned operation type
+        aty, bty = e.get("aty"), e.get("bty")
+        if aty and bty and not aty[1] and bty[1] and P.bits(aty[0]) == P.bits(bty[0]):
+            # operands of equal size and different sign: cppcheck converts to the LEFT operand's sign (and F7 types the result signed)
+            sb = conv(P, (bty[0], False), e["b"])
+            ex2 = e["a"] + sb if e["op"] == "+" else e["a"] - sb if e["op"] == "-" else e["a"] * sb
+            if reported in (wrap64(ex2), conv(P, (aty[0], False), ex2)):
+                return "fold-mixed-sign-left-signed"
+    if e["kind"] == "C" and e.get("detail") == "char1:high" and P.char_unsigned and reported == e["expect"] - 256:
+        return "charlit-host-char-sign"           # narrow character literal valued with the host's signed char
+    return None
+
+
+def run_cli_case(ctx, res, drv, P, cpp, exprs, tag):
+    """returns (#known values seen, list of violations dicts)"""
+    d = os.path.join(ctx.tmp, "cli_%s" % tag)
+    os.makedirs(d, exist_ok=True)
+    src = os.path.join(d, "t.cpp" if cpp else "t.c")
+    open(src, "w").write(cli_program(exprs))
+    rc, out, err = core.sh([ctx.cppcheck, "--platform=" + P.name, "--dump", "-q", src], cwd=d, timeout=120)
+    dump = src + ".dump"
+    if not os.path.exists(dump):
+        raise core.CheckBroken("cppcheck --dump produced no dump for %s on %s: rc=%s %s" % (src, P.name, rc, (out + err)[-300:]))
+    lines = read_dump(dump)
+    viol, nknown, mops, mexp = [], 0, [], []
+    for i, e in enumerate(exprs):
+        ln = 3 + i
+        if ln not in lines:
+            res.count("cli:no-rhs-token")
+            continue
+        tok, known = lines[ln]
+        rep = known[0] if known else None
+        res.count("cli:%s:%s" % (e["kind"], "known" if known else "novalue"))
+        if known:
+            nknown += 1
+        res.case("cli|%s|%s|%s" % (P.name, "cpp" if cpp else "c", e["src"]), bool(known),
+                 dict(tie="cli", platform=P.name, lang="cpp" if cpp else "c", expr=e["src"], reported=rep, reference=e["expect"]) if i == 0 else None)
+        # (a) literal tokens: reported value = model's valueFlowSetConstantValue branch on the token as cppcheck typed it
+        if e["kind"] in "LC" and tok.get("valueType-type") in VT_SIZE:
+            t = VT_SIZE[tok["valueType-type"]]
+            uns = tok.get("valueType-sign") == "unsigned"
+            bits = -1 if t == "wchar_t" else P.bits(t)
+            mops.append(("big " + lat1(tok["str"]), uns, P.size[t], bits))
+            mexp.append((e, rep))
+        # (b) P_impl
+        if rep is not None and e["expect"] is not None and rep != wrap64(e["expect"]):
+            viol.append(dict(platform=P.name, lang="cpp" if cpp else "c", expr=e["src"], kind=e["kind"], reported=rep, reference=e["expect"],
+                             key=classify_cli(P, e, rep)))
+    if mops:
+        rc, o1, _ = core.run_lines(drv, [], [m[0] for m in mops])
+        cops = []
+        for (op, uns, size, bits), o in zip(mops, o1):
+            m = re.match(r"^B ok:(-?\d+) \|", o)
+            cops.append("const %s %d %d %d" % (m.group(1), 1 if uns else 0, size, bits) if m else "const x 0 0 0")
+        rc, o2, _ = core.run_lines(drv, [], cops)
+        bad = []
+        for (e, rep), c, o in zip(mexp, cops, o2):
+            want = None if o in ("novalue", "bad-op") else int(o)
+            if o != "bad-op" and want != rep:
+                bad.append("%s on %s: reported %s, model %s (%s)" % (e["src"], P.name, rep, want, c))
+        res.traces_validated += len(mexp) - len(bad)
+        if bad:
+            res.extra.setdefault("cli_model_mismatch", []).extend(bad[:5])
+    return nknown, viol
+
+
+def cli_tie(ctx, res, drv, x, thorough):
+    rng = ctx.rng
+    allp = [Plat(n, v) for n, v in x["builtin"]] + [Plat("native", x["native"])] + [Plat(n, v) for n, v in x["files"]]
+    byname = dict((p.name, p) for p in allp)
+    if thorough:
+        plats, per = allp, 120
+    else:
+        plats = [byname[n] for n in ("unix64", "win64", "unix32") if n in byname]
+        extra = [p for p in allp if p.name not in ("unix64", "win64", "unix32", "native", "win32A", "win32W")]
+        plats += rng.sample(extra, min(2, len(extra)))
+        per = 45
+    nknown, viols = 0, []
+    for P in plats:
+        for cpp in (False, True):
+            exprs = [cli_expr(rng, P, cpp) for _ in range(per)]
+            k, v = run_cli_case(ctx, res, drv, P, cpp, exprs, "%s_%d" % (P.name, cpp))
+            nknown += k
+            viols += v
+    res.extra["cli_platforms"] = [p.name for p in plats]
+    res.extra["cli_known_values"] = nknown
+    res.oblig("correspondence:cli-literal-values-vs-model", not res.extra.get("cli_model_mismatch") and nknown > 0, "correspondence",
+              "; ".join(res.extra.get("cli_model_mismatch", [])) or "")
+    seen = {}
+    for v in viols:
+        n = seen.get(v["key"], 0)
+        seen[v["key"]] = n + 1
+        if n < (3 if v["key"] else 25):
+            res.violation("reported constant differs from the C abstract machine on platform %s (%s): `%s` reported %d, reference %d" %
+                          (v["platform"], v["lang"], v["expr"], v["reported"], v["reference"]),
+                          dict(kind="cli", platform=v["platform"], lang=v["lang"], expr=v["expr"], reported=v["reported"], reference=v["reference"],
+                               replay_cmd="./check.py C10 --replay <this file>"), concrete=True, key=v["key"])
+    for k, n in seen.items():
+        res.count("cli:violation:%s" % (k or "unclassified"), n)
+    return allp
+
+
+# ------------------------------------------------------------------------------------------------------------
+# corpus: witnesses of the findings and past disagreements; replayed first on every run
+# ------------------------------------------------------------------------------------------------------------
+def load_corpus():
+    p = os.path.join(core.VERIF, "corpus", "C10", "cases.json")
+    return json.load(open(p)) if os.path.exists(p) else []
+
+
+def corpus_ops():
+    return [c["op"] for c in load_corpus() if "op" in c]
+
+
+def replay_cli_witness(ctx, res, drv, x, w):
+    """w: dict(platform, lang, expr, kind, ...) a stored constant expression; returns the violation dicts it produces now"""
+    vals = dict(x["builtin"]); vals["native"] = x["native"]; vals.update(dict(x["files"]))
+    if w["platform"] not in vals:
+        return []
+    P = Plat(w["platform"], vals[w["platform"]])
+    e = dict(w["case"])
+    for f in ("ty", "aty", "bty"):
+        if f in e:
+            e[f] = tuple(e[f])
+    k, v = run_cli_case(ctx, res, drv, P, w["lang"] == "cpp", [e], "corpus_%s_%s" % (w["platform"], abs(hash(w["expr"])) % 100000))
+    return v
+
+
 def run(ctx, res):
     thorough = ctx.tier == "thorough"
+    rng = ctx.rng
     # T1 -------------------------------------------------------------------------------------------------
     x = None
     try:
@@ -580,16 +1031,30 @@ def run(ctx, res):
     core.prove(ctx, res, MODULES, THEOREMS)
     drv = ctx.driver("drv_c10")
     exe = ctx.harness("c10")
+    have_tables = x is not None
     if x is None:
-        # the generated table is stale: still run the correspondence on the literal functions, the `plat` ops will expose the difference
-        x = dict(builtin=[(n, {}) for n in ("win32A", "win32W", "win64", "unix32", "unix64")], files=[(os.path.basename(p)[:-4], {}) for p in sorted(glob.glob(os.path.join(core.REPO, "platforms", "*.xml")))])
+        # the generated table is stale: still run the correspondence on the literal functions; the `plat` ops expose the difference
+        x = dict(builtin=[(n, {}) for n in ("win32A", "win32W", "win64", "unix32", "unix64")],
+                 files=[(os.path.basename(p)[:-4], {}) for p in sorted(glob.glob(os.path.join(core.REPO, "platforms", "*.xml")))])
+    # corpus first -----------------------------------------------------------------------------------------
+    corpus = load_corpus()
+    cw = [c["spec"] for c in corpus if "spec" in c]
+    if cw:
+        pimpl_struct(ctx, res, drv, exe, cw, "corpus")
+    if have_tables:
+        for c in corpus:
+            if "cli" in c:
+                for v in replay_cli_witness(ctx, res, drv, x, c["cli"]):
+                    res.violation("corpus witness: `%s` on %s (%s) reported %d, reference %d" % (v["expr"], v["platform"], v["lang"], v["reported"], v["reference"]),
+                                  dict(kind="cli", platform=v["platform"], lang=v["lang"], expr=v["expr"], reported=v["reported"], reference=v["reference"]),
+                                  concrete=True, key=v["key"])
     # C1..C5 -----------------------------------------------------------------------------------------------
     ops = corpus_ops() + inproc_ops(ctx, x, thorough)
     rc, impl, err = core.run_lines(exe, [core.REPO], ops)
     rc2, model, err2 = core.run_lines(drv, [], ops)
     for o in ops:
         res.count("op:" + o.split(" ", 1)[0])
-    mism = core.correspond(ctx, res, "inprocess", ops, impl, model, nontrivial=nontrivial_inproc)
+    core.correspond(ctx, res, "inprocess", ops, impl, model, nontrivial=nontrivial_inproc)
     for o in impl:
         if o.startswith("B "):
             res.count("big:" + re.sub(r":-?\d+", "", o.split(" | ")[0][2:]))
@@ -597,14 +1062,136 @@ def run(ctx, res):
             res.count("chr:ok")
         elif o.startswith("err:"):
             res.count("chr:" + o[4:])
+    # P_impl on structured literals ------------------------------------------------------------------------
+    n = 6 if thorough else 1
+    specs = [gen_struct_lit(rng) for _ in range(2500 * n)] + [gen_struct_char(rng) for _ in range(2500 * n)]
+    cases = pimpl_struct(ctx, res, drv, exe, specs, "generated")
+    # C6 ---------------------------------------------------------------------------------------------------
+    allp = None
+    if have_tables:
+        allp = cli_tie(ctx, res, drv, x, thorough)
+    # thorough: validate the SPEC against compilers ----------------------------------------------------------
+    if thorough and have_tables:
+        spec_probes(ctx, res, cases, allp)
+    # search when an obligation broke and nothing concrete is known yet ----------------------------------------
+    if any(not o["ok"] for o in res.obligations) and not any(v["concrete"] and not known_key(v.get("key")) for v in res.violations):
+        search(ctx, res, drv, exe, x, have_tables)
 
 
-def corpus_ops():
-    p = os.path.join(core.VERIF, "corpus", "C10", "cases.json")
-    if not os.path.exists(p):
-        return []
-    return [c["op"] for c in json.load(open(p)) if "op" in c]
+def known_key(k):
+    return k is not None and any(e.get("property") == ID and e.get("kind") == "finding" and e.get("key") == k for e in core.load_known())
+
+
+def search(ctx, res, drv, exe, x, have_tables):
+    """wider structured sample (P_impl on the implementation) and, with tables, every platform through the CLI"""
+    rng = ctx.rng
+    specs = [gen_struct_lit(rng) for _ in range(12000)] + [gen_struct_char(rng) for _ in range(12000)]
+    res2 = core.Result(ctx, res.level)
+    pimpl_struct(ctx, res2, drv, exe, specs, "search")
+    if have_tables and ctx.tier != "thorough":
+        cli_tie(ctx, res2, drv, x, True)
+    res.extra["search_cases"] = res2.evaluations
+    for v in res2.violations:
+        if not known_key(v.get("key")):
+            res.violation("search: " + v["what"], v["replay"], concrete=True, key=v.get("key"))
+            if len(res.violations) > 30:
+                break
+
+
+# ------------------------------------------------------------------------------------------------------------
+# thorough: static_assert probes — validate the specification (Lean `Lit.value`/`CharLit.value`, reference evaluator, data models)
+# ------------------------------------------------------------------------------------------------------------
+CLANG_TARGET = {"unix64": "x86_64-linux-gnu", "unix32": "i386-linux-gnu", "win64": "x86_64-pc-windows-msvc", "win32A": "i686-pc-windows-msvc",
+                "win32W": "i686-pc-windows-msvc", "native": "x86_64-linux-gnu", "avr8": "avr", "arm32-wchar_t4": "arm-none-eabi",
+                "arm64-wchar_t4": "aarch64-linux-gnu", "riscv32": "riscv32", "riscv64": "riscv64", "mips32": "mips-linux-gnu",
+                "msp430_eabi_large_datamodel": "msp430", "aix_ppc64": "powerpc64-ibm-aix", "elbrus-e1cp": None, "cray_sv1": None}
+
+
+def clang_asserts(ctx, target, cpp, asserts, extra=()):
+    """compile one static_assert per line; returns (set of failing line indices, set of lines rejected for another reason)"""
+    src = os.path.join(ctx.tmp, "probe_%d.%s" % (ctx.rng.getrandbits(30), "cpp" if cpp else "c"))
+    open(src, "w").write("".join(a + "\n" for a in asserts))
+    cmd = ["clang-14", "--target=" + target, "-fsyntax-only", "-fms-extensions", "-w", "-ferror-limit=0",
+           "-std=c++17" if cpp else "-std=gnu11"] + list(extra) + [src]
+    rc, out, err = core.sh(cmd, timeout=300)
+    failed, rejected = set(), set()
+    for m in re.finditer(r":(\d+):\d+: error: (.*)", err):
+        (failed if "static_assert failed" in m.group(2) or "static assertion failed" in m.group(2) else rejected).add(int(m.group(1)) - 1)
+    return failed, rejected, err
+
+
+def spec_probes(ctx, res, cases, allp):
+    rng = ctx.rng
+    # (1) Lean spec values of structured literals against clang (x86-64: signed char, 32-bit int = the host assumptions of the model)
+    asserts, meta = [], []
+    for c in cases:
+        kv = c["spec"]
+        if kv["wf"] != "1":
+            continue
+        text = core.unhx(kv["render"]).decode("latin-1")
+        if c["kind"] == "lit":
+            f = c["op"].split(" ")
+            if f[1] != "-" or kv["canon"] != "1" or int(kv["mag"]) >= 2 ** 64:
+                continue
+            suf = core.unhx(f[5]).decode("latin-1")
+            if suf.startswith("_") or suf.lower() in ("z", "uz", "zu") or (suf and suf != suf.lower() and suf != suf.upper() and "l" in suf.lower() and "ll" in suf.lower() and suf.replace("u", "").replace("U", "") not in ("ll", "LL")):
+                continue      # user-defined / C++23 size_t suffixes, mixed-case `lL`: not accepted by the probe compiler
+            asserts.append('static_assert((unsigned long long)(%s) == %sULL, "");' % (text, kv["mag"]))
+        else:
+            if any(ord(ch) < 0x20 or ord(ch) > 0x7e for ch in text):
+                continue
+            asserts.append('static_assert(%s == %s, "");' % (text, kv["value"]))
+        meta.append(c)
+        if len(asserts) >= 3000:
+            break
+    failed, rejected, err = clang_asserts(ctx, "x86_64-linux-gnu", True, asserts)
+    res.extra["spec_probe_literals"] = dict(asserted=len(asserts), rejected_by_compiler=len(rejected), contradicted=len(failed))
+    res.oblig("spec:literal-values-agree-with-clang", not failed and len(asserts) - len(rejected) > 500, "spec-validation",
+              "" if not failed else "clang contradicts the specification value of: %s" % [asserts[i] for i in sorted(failed)[:5]])
+    # (2) reference evaluator + data models against clang targets
+    contradicted, total = [], 0
+    for P in allp:
+        tgt = CLANG_TARGET.get(P.name)
+        if not tgt:
+            continue
+        for cpp in (False, True):
+            exprs = [cli_expr(rng, P, cpp) for _ in range(150)]
+            exprs = [e for e in exprs if e["expect"] is not None and not (e["kind"] == "C" and e["src"].startswith(("L", "u", "U")))]
+            kw = "static_assert" if cpp else "_Static_assert"
+            asserts = ['%s((%s) == %d, "");' % (kw, e["src"], e["expect"]) if e["expect"] >= 0 else
+                       '%s((%s) == -%d - 1, "");' % (kw, e["src"], -e["expect"] - 1) for e in exprs]
+            extra = ["-funsigned-char"] if (P.char_unsigned and tgt in ("x86_64-linux-gnu",)) else []
+            failed, rejected, err = clang_asserts(ctx, tgt, cpp, asserts, extra)
+            total += len(asserts) - len(rejected)
+            for i in sorted(failed):
+                # a platform file whose sizes are not the clang target's data model is reported separately (data, not evaluator)
+                contradicted.append("%s/%s: %s" % (P.name, tgt, asserts[i]))
+    datamodel = [c for c in contradicted if "sizeof" in c or any(p in c for p in ("arm64-wchar_t4", "aix_ppc64", "msp430", "mips32"))]
+    other = [c for c in contradicted if c not in datamodel]
+    res.extra["spec_probe_expressions"] = dict(asserted=total, contradicted=len(other), platform_file_vs_clang_target=datamodel[:12])
+    res.oblig("spec:reference-evaluator-agrees-with-clang", not other and total > 1000, "spec-validation",
+              "" if not other else "clang contradicts the reference evaluator: %s" % other[:5])
 
 
 def replay(ctx, res, rp):
-    return 0
+    drv = ctx.driver("drv_c10")
+    exe = ctx.harness("c10")
+    if rp.get("kind") == "struct":
+        pimpl_struct(ctx, res, drv, exe, [rp["op"]], "replay")
+    elif rp.get("kind") == "cli":
+        x = extract(ctx)
+        vals = dict(x["builtin"]); vals["native"] = x["native"]; vals.update(dict(x["files"]))
+        P = Plat(rp["platform"], vals[rp["platform"]])
+        e = dict(src=rp["expr"], expect=rp["reference"], kind="R")
+        k, v = run_cli_case(ctx, res, drv, P, rp["lang"] == "cpp", [e], "replay")
+        for vv in v:
+            res.violation("`%s` on %s reported %d, reference %d" % (vv["expr"], vv["platform"], vv["reported"], vv["reference"]), dict(vv), concrete=True, key=None)
+    elif "op" in rp:
+        rc, a, _ = core.run_lines(exe, [core.REPO], [rp["op"]])
+        rc, b, _ = core.run_lines(drv, [], [rp["op"]])
+        if a != b:
+            res.violation("implementation %s, model %s on %s" % (a, b, rp["op"]), dict(rp), concrete=True, key=None)
+    for v in res.violations:
+        print("VIOLATION property=C10 replay=(replayed) %s" % v["what"][:300])
+    print("replay: %d failing" % len(res.violations))
+    return 1 if res.violations else 0
